@@ -34,7 +34,7 @@ type dtStr struct {
 func c17Grid(full bool) []dtStr {
 	var out []dtStr
 	// (2023-03-26 / 2023-11-05 / 2024-03-10: daylight-saving transitions in Europe/Berlin and America/New_York)
-	dates := []string{"2023-08-15", "2024-02-29", "2023-03-26", "2023-11-05", "2024-03-10", "1999-12-31", "2000-01-01", "0001-01-01", "9999-12-31", "1970-01-01"}
+	dates := []string{"2023-08-15", "2024-02-29", "0001-01-01", "2023-03-26", "2023-11-05", "2024-03-10", "1999-12-31", "2000-01-01", "9999-12-31", "1970-01-01"}
 	times := []string{"00:00:00", "12:34:56", "23:59:59", "01:30:00", "03:30:00", "06:00:00", "23:59:59.999999", "12:34:56.789", "00:00:00.5", "12:34:56.1234567", "23:59:59.9999995", "12:34:56.123456789", "02:30:00", "12:34:56.4999995", "23:59:59.9499996", "00:00:00.0049999995"}
 	zones := []string{"Z", "+00", "+01", "-05", "+05:30", "-03:30", "+14:00", "-12:00", "+13:45", "+00:00", "-08", "+09:00"}
 	if !full {
@@ -421,6 +421,24 @@ func runC17(c *h.Ctx) {
 				}
 				for _, b := range sub {
 					checkCompare(c, a, b, tz, zone, rel)
+				}
+			}
+		}
+	}
+	// context zones at the far ends (+13:00 ... +14:00, -12:00): zone-less values
+	// against instants that lie between twelve hours and the zone's offset away
+	{
+		far := []dtStr{{"2024-01-01", "date"}, {"2023-12-31", "date"}, {"2024-01-01T00:00:00", "timestamp"}, {"2023-12-31T23:00:00", "timestamp"}, {"2024-01-01T01:30:00", "timestamp"},
+			{"2023-12-31T11:00:00+00:00", "timestamptz"}, {"2023-12-31T10:00:00Z", "timestamptz"}, {"2023-12-31T12:30:00+00:00", "timestamptz"}, {"2024-01-01T11:30:00+00:00", "timestamptz"}, {"2023-12-31T09:59:59Z", "timestamptz"},
+			{"2024-01-01T12:00:00-12:00", "timestamptz"}, {"2023-12-31T10:15:00+00:00", "timestamptz"}, {"2024-01-01T13:00:00+00:00", "timestamptz"}, {"0001-01-01T00:00:00Z", "timestamptz"}, {"0001-01-01", "date"}}
+		for zi, zone := range []string{"+14:00", "+13:00", "-12:00", "+13:45", "Pacific/Kiritimati", "Pacific/Chatham", "+12:00"} {
+			rel := map[[2]string]int{}
+			for ai, a := range far {
+				if !c.Mine(ai + zi) {
+					continue
+				}
+				for _, b := range far {
+					checkCompare(c, a, b, true, zone, rel)
 				}
 			}
 		}
